@@ -5,9 +5,19 @@ import json
 import sys
 import traceback
 import os
+import signal
+
+
+class CaseTimeout(BaseException):
+    pass
+
+
+def _on_alarm(signum, frame):
+    raise CaseTimeout()
 
 
 def main():
+    signal.signal(signal.SIGALRM, _on_alarm)
     modname = sys.argv[1]
     # keep pgmpy/tqdm chatter away from the protocol stream
     proto = os.fdopen(os.dup(1), "w")
@@ -29,9 +39,17 @@ def main():
             continue
         case = json.loads(line)
         try:
-            out = mod.run_case(case, drv)
+            signal.alarm(int(getattr(mod, "CASE_TIMEOUT_S", 300)))
+            try:
+                out = mod.run_case(case, drv)
+            finally:
+                signal.alarm(0)
             if out is None:
                 out = common.ok()
+        except CaseTimeout:
+            out = common.bad("timeout", {"seconds": getattr(mod, "CASE_TIMEOUT_S", 300),
+                                         "note": "pgmpy or the model did not return in time on this case"})
+            drv.close()
         except Exception:
             out = common.bad(
                 "harness-exception",
